@@ -52,6 +52,24 @@ def out_of_extent(result_out, spec, extents):
     return False
 
 
+def key_of(c):
+    """Structural key + description of a failing affine case (shared with C02's affine sub-population)."""
+    r = c.result
+    fl = c.meta["flags"]
+    if r["status"] == "RAN":
+        key = {"kind": "wrong-result"}
+        key.update(execlib.diff_class(r["out"], c.spec.decl[c.spec.outs[0]], c.extents))
+        key.update(fl)
+        what = "affine program computes a wrong output (%s): %s" % (key, r["out"][:300])
+    else:
+        key = {"kind": "execution-error", "error": r.get("err", r["status"])[:40]}
+        if "unbound" in r:
+            key["unbound_is_level_name"] = bool(re.match(r'^[A-Z]+\d$', r["unbound"]))
+            key["error"] = "unbound"
+        what = "affine program cannot be executed: %s" % r
+    return key, what
+
+
 def run(ctx):
     rng = ctx.rng
     n = 400 if ctx.quick() else 4000
@@ -95,16 +113,7 @@ def run(ctx):
                 clean_ok += 1
             continue
         bad += 1
-        if r["status"] == "RAN":
-            key = {"kind": "wrong-result", "out_of_extent": out_of_extent(r["out"], c.spec, c.extents)}
-            key.update(fl)
-            what = "affine program computes a wrong output (%s): %s" % (key, r["out"][:300])
-        else:
-            key = {"kind": "execution-error", "error": r.get("err", r["status"])[:40]}
-            if "unbound" in r:
-                key["unbound_is_level_name"] = bool(re.match(r'^[A-Z]+\d$', r["unbound"]))
-                key["error"] = "unbound"
-            what = "affine program cannot be executed: %s" % r
+        key, what = key_of(c)
         ctx.violation(key, what, c.replay())
     distinct = len(set(c.text for c in cases))
     ctx.coverage.update({
